@@ -184,9 +184,75 @@ def inline_body(facts, d, memo, stack=(), depth=0):
     return new
 
 
+def thread_jumps(d):
+    """Jump threading for the pattern `let x = if c { f() } else { None }; match x {..}`:
+    when a predecessor of a switch block has just assigned the switched local a value of known
+    variant (or a bool constant), its edge is redirected to the arm that value selects.  Dominance
+    based facts then see that the other arm is only reachable over the path that computed f()."""
+    blocks = d["blocks"]
+    changed = False
+    preds = {}
+    for i, b in enumerate(blocks):
+        t = b["term"]
+        if t["k"] == "goto":
+            preds.setdefault(t["target"], []).append(i)
+    new_blocks = None
+    for j, J in enumerate(blocks):
+        t = J["term"]
+        if t["k"] != "switch" or J["cleanup"]:
+            continue
+        disc = t["discr"]
+        if disc["k"] not in ("copy", "move") or disc["place"]["p"]:
+            continue
+        dl = disc["place"]["l"]
+        local = None
+        mode = None
+        if not J["stmts"]:
+            local, mode = dl, "bool"
+        elif len(J["stmts"]) == 1 and J["stmts"][0]["k"] == "assign" and J["stmts"][0]["place"] == {"l": dl, "p": []} \
+                and J["stmts"][0]["rv"]["k"] == "discr" and not J["stmts"][0]["rv"]["place"]["p"]:
+            local, mode = J["stmts"][0]["rv"]["place"]["l"], "enum"
+        if local is None:
+            continue
+        for pi in preds.get(j, []):
+            P = blocks[pi] if new_blocks is None else new_blocks[pi]
+            val = None
+            for st in reversed(P["stmts"]):
+                if st["k"] == "assign" and st["place"]["l"] == local:
+                    if st["place"]["p"]:
+                        break
+                    rv = st["rv"]
+                    if mode == "enum" and rv["k"] == "aggregate" and rv.get("agg") == "adt":
+                        val = str(rv["variant"])
+                    elif mode == "bool" and rv["k"] == "use" and rv["op"]["k"] == "const" and rv["op"].get("int") in ("0", "1"):
+                        val = rv["op"]["int"]
+                    break
+            if val is None:
+                continue
+            target = None
+            for (v, bb) in t["arms"]:
+                if v == val:
+                    target = bb
+            if target is None:
+                target = t["otherwise"]
+            if new_blocks is None:
+                new_blocks = [dict(b) for b in blocks]
+            nt = dict(new_blocks[pi]["term"])
+            nt["target"] = target
+            nt["threaded"] = True
+            new_blocks[pi] = dict(new_blocks[pi])
+            new_blocks[pi]["term"] = nt
+            changed = True
+    if not changed:
+        return d
+    nd = dict(d)
+    nd["blocks"] = new_blocks
+    return nd
+
+
 def inline_all(facts):
     memo = {}
     out = {}
     for key, d in facts.raw_bodies.items():
-        out[key] = inline_body(facts, d, memo)
+        out[key] = thread_jumps(inline_body(facts, d, memo))
     return out
